@@ -454,10 +454,23 @@ func runC14(h *hz.H) {
 			}
 			return true
 		})
-		for _, r := range enum.RecordAlphabet(md, false) {
+		ra := enum.RecordAlphabet(md, false)
+		for _, r := range ra {
 			if !seen[string(r.Bytes)] {
 				seen[string(r.Bytes)] = true
 				bases = append(bases, baseS{md, r.Bytes, "record " + r.Label})
+			}
+		}
+		// a singular / oneof message field arriving in two pieces: unknown records of both pieces accumulate in one message
+		for _, r1 := range ra {
+			for _, r2 := range ra {
+				if r1.Num == r2.Num && strings.Contains(r1.Class, ":submessage") && strings.Contains(r2.Class, ":submessage") && r1.Class == r2.Class {
+					b := append(append([]byte(nil), r1.Bytes...), r2.Bytes...)
+					if !seen[string(b)] && len(b) <= baseCap {
+						seen[string(b)] = true
+						bases = append(bases, baseS{md, b, "records " + r1.Label + " + " + r2.Label})
+					}
+				}
 			}
 		}
 		names = append(names, fmt.Sprintf("%s: %d base streams", md.FullName(), len(bases)-n0))
@@ -538,6 +551,6 @@ func runC14(h *hz.H) {
 		h.Counter("nesting_levels_injected_into", int64(len(lv)))
 		_ = levelShapes
 	})
-	h.Rep.Rule = "base streams = reference encodings (<= 500 bytes) of every <=1-slot value (reduced alphabet, nesting depth 2) + every single record of the C03 alphabet, per pulsar type; each is parsed with the schema into nesting levels (top, singular message, list element, map value, oneof member); ONE unknown record from that level's unknown alphabet at EVERY record boundary of EVERY level, and every PAIR of injections over a reduced alphabet (first 8 levels and the last one of long lists); DiscardUnknown off and on; plus SetUnknown/GetUnknown round trips and every ordered pair history SetUnknown-or-decode(u1); keep GetUnknown; SetUnknown(u2) on every 8th base stream; all cases non-trivial; distinct = hash(type, injected stream)"
+	h.Rep.Rule = "base streams = reference encodings (<= 500 bytes) of every <=1-slot value (reduced alphabet, nesting depth 2) + every single record of the C03 alphabet + every two-piece split of a singular / oneof message field, per pulsar type; each is parsed with the schema into nesting levels (top, singular message, list element, map value, oneof member); ONE unknown record from that level's unknown alphabet at EVERY record boundary of EVERY level, and every PAIR of injections over a reduced alphabet (first 8 levels and the last one of long lists); DiscardUnknown off and on; plus SetUnknown/GetUnknown round trips and every ordered pair history SetUnknown-or-decode(u1); keep GetUnknown; SetUnknown(u2) on every 8th base stream; all cases non-trivial; distinct = hash(type, injected stream)"
 	h.Rep.Assumptions = []string{"dynamicpb (protobuf-go v1.34.0) is the reference for where unknown records are stored and how they are re-emitted", "unknown records injected inside map *entries* (not map values) are C03's business: the reference drops them"}
 }
